@@ -445,10 +445,11 @@ func runHistory(c cfg, hist []string, ev string) (msg, key string, en []event, m
 }
 
 func configs(tier string) []cfg {
+	// the Byzantine producer has index 1 so that it owns two slots (1 and 5) inside the horizon
 	if tier == "thorough" {
-		return []cfg{{N: 3, Byz: -1, T: 7, Restarts: 1}, {N: 4, Byz: 3, T: 6, Restarts: 0}, {N: 4, Byz: -1, T: 7, Restarts: 1}}
+		return []cfg{{N: 3, Byz: -1, T: 6, Restarts: 1}, {N: 4, Byz: 1, T: 5, Restarts: 0}, {N: 4, Byz: -1, T: 6, Restarts: 0}}
 	}
-	return []cfg{{N: 3, Byz: -1, T: 5, Restarts: 1}, {N: 4, Byz: 3, T: 4, Restarts: 0}}
+	return []cfg{{N: 3, Byz: -1, T: 4, Restarts: 1}, {N: 4, Byz: 1, T: 3, Restarts: 0}}
 }
 
 func explore(ctx *xplor.Ctx, c cfg, shard, nshards int, seedDepth int) {
